@@ -161,11 +161,12 @@ static const uint32_t SHAPES[4][2] = { { 1, 1 }, { 3, 2 }, { 5, 1 }, { 33, 3 } }
 static const char* METAS[3] = { "", "{}", "{\"a\":1,\"b\":{\"c\":\"d\"}}" };
 static const double SCALES[3][2] = { { 1, 1 }, { 0.5, 2 }, { 0, 0 } };
 struct Cyc { int n, group, meta, scale, uri; };
-struct Spec { int kind, shape, type, ncyc; Cyc c[2]; };
+struct Spec { int kind, shape, type, ncyc; Cyc c[2]; int short_at = -1, short_kind = 0; /* one short/zero write at this pwrite index */ };
 static std::string spec_str(const Spec& s)
 {
     char b[200]; snprintf(b, sizeof b, "kind=%d,shape=%d,type=%d,cycles=%d", s.kind, s.shape, s.type, s.ncyc); std::string o = b;
     for (int i = 0; i < s.ncyc; ++i) { snprintf(b, sizeof b, ";n=%d,group=%d,meta=%d,scale=%d,uri=%d", s.c[i].n, s.c[i].group, s.c[i].meta, s.c[i].scale, s.c[i].uri); o += b; }
+    if (s.short_at >= 0) { snprintf(b, sizeof b, ";short=%d,%d", s.short_at, s.short_kind); o += b; }
     return o;
 }
 static bool parse_spec(const std::string& t, Spec& s)
@@ -174,13 +175,17 @@ static bool parse_spec(const std::string& t, Spec& s)
     if (sscanf(t.c_str(), "kind=%d,shape=%d,type=%d,cycles=%d", &s.kind, &s.shape, &s.type, &s.ncyc) != 4) return false;
     size_t p = 0;
     for (int i = 0; i < s.ncyc; ++i) { p = t.find(';', p); if (p == std::string::npos) return false; ++p; if (sscanf(t.c_str() + p, "n=%d,group=%d,meta=%d,scale=%d,uri=%d", &s.c[i].n, &s.c[i].group, &s.c[i].meta, &s.c[i].scale, &s.c[i].uri) != 5) return false; }
+    s.short_at = -1; s.short_kind = 0;
+    size_t q = t.find(";short="); if (q != std::string::npos) sscanf(t.c_str() + q, ";short=%d,%d", &s.short_at, &s.short_kind);
     return true;
 }
 
 static unsigned long long g_refused, g_parsed;
+static int g_last_writes;
 static std::string execute(const Spec& s)
 {
     ENV = Env();
+    if (s.short_at >= 0) { ENV.write_plan.assign(s.short_at + 1, W_FULL); ENV.write_plan[s.short_at] = s.short_kind; }
     struct Storage* dev = dev_open(s.kind);
     if (!dev) return "open-failed|storage_open returned NULL";
     std::string verdict;
@@ -236,6 +241,7 @@ static std::string execute(const Spec& s)
         h_rm(path);
     }
     DEV(storage_close(dev));
+    g_last_writes = ENV.nwrites;
     return verdict;
 }
 
@@ -326,7 +332,7 @@ int main(int argc, char** argv)
     }
     struct V { std::string clause, detail, spec; unsigned long long count; };
     std::map<std::string, V> viols;
-    unsigned long long files = 0, runs = 0;
+    unsigned long long files = 0, runs = 0, short_runs = 0;
     std::vector<std::string> samples;
     for (int kind : { (int)BasicDevice_Storage_Tiff, (int)BasicDevice_Storage_SideBySideTiffJson })
         for (int shape = 0; shape < 4; ++shape)
@@ -343,6 +349,11 @@ int main(int argc, char** argv)
                                     else {
                                         if (scale != 0 || uri != 0 || (shape != 1 && shape != 3)) continue; // second-cycle variants on a sub-product
                                         for (int n2 = 1; n2 <= 2; ++n2) for (int meta2 = 0; meta2 < 3; ++meta2) { Spec t = s; t.ncyc = 2; t.c[1] = { n2, 0, meta2, 0, 0 }; todo.push_back(t); }
+                                    }
+                                    // one short / 1-byte / zero write at every pwrite index, on a sub-product (the OS may complete any write partially)
+                                    if (cycles == 1 && meta == 2 && scale == 0 && uri == 0 && (shape == 1 || shape == 3) && (type == 0 || type == 4) && n == 2) {
+                                        Spec base = s; execute(base); int W = g_last_writes;
+                                        for (int at = 0; at < W + 2; ++at) for (int k = W_SHORT_BY_1; k <= W_ZERO; ++k) { Spec t = s; t.short_at = at; t.short_kind = k; todo.push_back(t); ++short_runs; }
                                     }
                                     for (Spec& t : todo) {
                                         std::string v = execute(t); ++runs; files += t.ncyc;
@@ -369,7 +380,7 @@ int main(int argc, char** argv)
     h_rmtree(g_scratch);
     double wall = std::chrono::duration<double>(std::chrono::steady_clock::now() - t0).count();
     FILE* f = out.empty() ? stdout : fopen(out.c_str(), "w");
-    fprintf(f, "{\"large_files_over_4GiB\":%llu,\"cycles\":%d,\"runs\":%llu,\"configurations_refused_by_the_device\":%llu,\"files_parsed\":%llu,\"exhaustive\":true,\"wall_s\":%.3f,\"samples\":[", large, cycles, runs, g_refused, g_parsed, wall);
+    fprintf(f, "{\"runs_with_a_short_or_zero_write\":%llu,\"large_files_over_4GiB\":%llu,\"cycles\":%d,\"runs\":%llu,\"configurations_refused_by_the_device\":%llu,\"files_parsed\":%llu,\"exhaustive\":true,\"wall_s\":%.3f,\"samples\":[", short_runs, large, cycles, runs, g_refused, g_parsed, wall);
     for (size_t i = 0; i < samples.size(); ++i) fprintf(f, "%s\"%s\"", i ? "," : "", json_esc(samples[i]).c_str());
     fprintf(f, "],\"violations\":[");
     bool first = true;
